@@ -489,6 +489,13 @@ func (root *Root) validate() error {
 		errs = append(errs, root.validateDirUses(t)...)
 		errs = append(errs, t.Validate(root)...)
 	}
+	if root.schema != nil && root.schema.implied && 0 < root.schema.fields.Len() {
+		// A schema formed from the Query, Mutation, and Subscription types
+		// is not in the list of types, it can have been extended. It is
+		// empty until one of the three is defined.
+		errs = append(errs, root.validateDirUses(root.schema)...)
+		errs = append(errs, root.schema.Validate(root)...)
+	}
 	if 0 < len(errs) {
 		return Errors(errs)
 	}
